@@ -752,10 +752,22 @@ def sseq_method(I, s, name):
         eng.assume(z3.ForAll([j], z3.Implies(z3.And(j >= 0, j < zn), z3.And(q(j) >= 0, q(j) < zn, p(q(j)) == j))))
         old_elem = s.elem
         s.elem = lambda i, old_elem=old_elem, p=p: old_elem(SV(p(tonum(i))))
+        # provenance (see `locate_in`): the element at old position t is now at position q(t)
+        prev = getattr(s, "locate", None)
+
+        def locate(t, prev=prev, q=q, p=p, zn=zn):
+            forms, pos = prev(t) if prev is not None else ([], t)
+            inst = z3.Implies(z3.And(pos >= 0, pos < zn), z3.And(q(pos) >= 0, q(pos) < zn, p(q(pos)) == pos))
+            return forms + [inst], q(pos)
+
+        s.locate = locate
         return None
 
     def copy_():
-        return SSeq(s.length, s.elem, s.kind, s.name)
+        c = SSeq(s.length, s.elem, s.kind, s.name)
+        if getattr(s, "locate", None) is not None:
+            c.locate = s.locate
+        return c
 
     table = dict(pop=pop, sort=sort, copy=copy_)
     if name not in table:
@@ -795,7 +807,35 @@ def symbolic_filter(I, seq, cond, kind="list"):
     eng.assume(z3.ForAll([i], z3.Implies(z3.And(i >= 0, i < n, ci), z3.And(g(i) >= 0, g(i) < zm, f(g(i)) == i))))
     j1, j2 = z3.Ints("j1!filt j2!filt")
     eng.assume(z3.ForAll([j1, j2], z3.Implies(z3.And(0 <= j1, j1 < j2, j2 < zm), f(j1) < f(j2))))
-    return SSeq(m, lambda k: seq.elem(SV(f(tonum(k)))), kind, tag)
+    out = SSeq(m, lambda k: seq.elem(SV(f(tonum(k)))), kind, tag)
+    # provenance (see `locate_in`): the element at position t of `seq`, if kept, sits at position g(t)
+    prev = getattr(seq, "locate", None)
+
+    def locate(t, prev=prev):
+        forms, pos = prev(t) if prev is not None else ([], t)
+        inst = z3.Implies(z3.And(pos >= 0, pos < n, z3.substitute(ci, (i, pos))), z3.And(g(pos) >= 0, g(pos) < zm, f(g(pos)) == pos))
+        return forms + [inst], g(pos)
+
+    out.locate = locate
+    return out
+
+
+def locate_in(I, container, x):
+    """Instantiation hints for `x in container` where container was derived from a sequence of objects by filter
+    comprehensions and list.sort: the Skolem axioms of those steps instantiated at the position of x.  They are
+    instances of hypotheses that are already assumed, hence true on every path; `contains` returns
+    `exists k ... or not (hints)`, which is equivalent under those hypotheses and puts the composed witness q(g(i))
+    in front of the solver also when x is a bound variable of an enclosing quantifier (e-matching alone does not find
+    it and the query was decided by MBQI only after ~18 s)."""
+    loc = getattr(container, "locate", None)
+    ident = getattr(x, "ident", None)
+    if loc is None or ident is None:
+        return []
+    try:
+        forms, _ = loc(tonum(ident[1]))
+    except Exception:
+        return []
+    return forms
 
 
 def ident_eq(a, b):
@@ -945,9 +985,13 @@ def contains(I, container, x):
             if m is not None:
                 return I.call_function(m, [container, x], {})
     if isinstance(container, SSeq):
+        hints = locate_in(I, container, x)
         k = z3.Int("k!in")
         body = I.truth(equal_values(I, container.elem(SV(k)), x))
-        return simplify_sv(z3.Exists([k], z3.And(k >= 0, k < tonum(container.length), tobool(body))))
+        ex = z3.Exists([k], z3.And(k >= 0, k < tonum(container.length), tobool(body)))
+        if hints:
+            return SV(z3.Or(ex, z3.Not(z3.And(*hints))))
+        return simplify_sv(ex)
     h = I.registry.contains_fallback
     if h is not None:
         return h(I, container, x)
